@@ -368,6 +368,47 @@ def c11_scripts(rng, tier, model_prefixes):
             n["T"] = rng.choice([32, 64])
             common = [{k: v for k, v in o.items() if k not in ("mask", "empty_masked")} for o in h[1:]]
             S.append(build3(n, rng.randrange(2, 5), common))
+
+    def build4(n, nch, common):
+        """dual mono: in some calls several channels are handed the very SAME input slice (same address); each
+        channel must still equal a single-channel twin that is fed the same data (seeded change C11l)"""
+        A = dict(n); A["ch"] = nch
+        ops = [with_id(A, 0)]
+        for c in range(nch):
+            b = dict(n); b["ch"] = 1; b["chbase"] = c
+            ops.append(with_id(b, 1 + c))
+        for c in range(nch):
+            ops.append({"op": "note", "twin": "chan", "a": 0, "b": 1 + c, "c": c})
+        for o in common:
+            if o["op"] == "process":
+                alias = list(range(nch))
+                if rng.random() < 0.5:
+                    src = rng.randrange(nch)
+                    for c in range(nch):
+                        if rng.random() < 0.7:
+                            alias[c] = src
+                om = dict(o); om["via"] = "slices"; om["alias_to"] = alias
+                ops.append(with_id(om, 0))
+                for c in range(nch):
+                    oc = dict(o); oc["via"] = "slices"; oc["chbase"] = alias[c]
+                    ops.append(with_id(oc, 1 + c))
+            else:
+                ops.append(with_id(o, 0))
+                for c in range(nch):
+                    ops.append(with_id(o, 1 + c))
+        return ops
+
+    for _ in range(n_gen // 3):
+        for kind in gen.KINDS:
+            h = gen.valid_history(rng, kind, rng.randrange(5, 12), small=rng.random() < 0.5,
+                                  allow=("ratio", "ramp", "chunk", "reset"))
+            n = calm(h[0])
+            n["signal"] = "noise"
+            n.pop("probe", None)
+            n["T"] = rng.choice([32, 64])
+            common = [{k: v for k, v in o.items() if k not in ("mask", "empty_masked", "via", "out", "in_extra", "out_extra")}
+                      for o in h[1:]]
+            S.append(build4(n, rng.randrange(2, 4), common))
     for _ in range(n_gen):
         for kind in gen.KINDS:
             h = gen.valid_history(rng, kind, rng.randrange(4, 14), small=rng.random() < 0.5,
